@@ -646,6 +646,42 @@ theorem m_due_fires_partial (now0 : Nat) (sess : List Msg.Sess) (evs : List Msg.
     · exact h1
     · have := absFrom_ge _ _ e he; omega
 
+/-- witness run: two sessions sharing the send queue (NSTART 1 each), T = 2000 and T = 3000 ticks -/
+def mevs : List Msg.Ev :=
+  [.submit 0 true 1 0, .setNow 500, .submit 1 true 7 255, .setNow 2000, .prepare, .setNow 3500, .prepare,
+   .rxAck 1 7, .setNow 6000, .prepare, .setNow 7000, .submit 1 true 8 128, .rxRst 0 1, .setNow 9500, .prepare]
+
+open Coap.Sim in
+/-- **m_single_outcome_partial** (`single_outcome` lifted from S to M — conservation law, every in-scope event list,
+punctual or not, any number of messages and sessions): for every (session, mid), the number of `coap_send` calls equals
+the number of outcome NACK-handler calls (TOO_MANY_RETRIES or RST, carrying the sent PDU) plus the number of silent
+completions (an arriving ACK that found the message in the send queue) plus the number of nodes still in the send
+queue.  So a message id submitted once is — at every moment — exactly one of: pending, completed by the ACK, or
+reported by ONE NACK; it is never concluded twice and never lost. -/
+theorem m_single_outcome_partial (now0 : Nat) (sess : List Msg.Sess) (evs : List Msg.Ev)
+    (hs : ∀ se ∈ sess, SessOk se) (hin : RunIn (Msg.init now0 sess) evs) (s mid : Nat) :
+    subC s mid evs =
+      nackC s mid (Msg.run (Msg.init now0 sess) evs).out + ackC s mid (Msg.init now0 sess) evs +
+        pendC s mid (Msg.run (Msg.init now0 sess) evs).q.nodes := by
+  have hp := parOk_of sess hs
+  obtain ⟨_, hr, _⟩ := run_sim (P := fun _ _ _ => True) hp evs _ (Timer.init now0)
+    (inv_init _ now0 sess hs) (rel_init _ now0 sess) hin (fun _ _ _ _ => trivial)
+  have hack := ackS_run (P := fun _ _ _ => True) hp s mid evs _ (Timer.init now0)
+    (inv_init _ now0 sess hs) (rel_init _ now0 sess) hin (fun _ _ _ _ => trivial)
+  have hso := single_outcome_init s mid now0 (trRun (Msg.init now0 sess) evs)
+  rw [sc_trRun, oc_split, nackS_obs, hr.outs, ← nackC_obs, hack, ← pc_er, hr.pend, pc_absP] at hso
+  simp only [Timer.init, ackS, Nat.zero_add] at hso
+  exact hso
+
+open Coap.Sim in
+/-- non-vacuity / reading of `m_single_outcome_partial` on the witness run: message (0,1) — one send, one RST NACK;
+message (1,7) — one send, silently completed by its ACK; message (1,8) — one send, still pending -/
+example : subC 0 1 mevs = 1 ∧ nackC 0 1 (Msg.run (Msg.init 0 [{}, {}]) mevs).out = 1 ∧
+    ackC 0 1 (Msg.init 0 [{}, {}]) mevs = 0 ∧ pendC 0 1 (Msg.run (Msg.init 0 [{}, {}]) mevs).q.nodes = 0 ∧
+    subC 1 7 mevs = 1 ∧ ackC 1 7 (Msg.init 0 [{}, {}]) mevs = 1 ∧
+    nackC 1 7 (Msg.run (Msg.init 0 [{}, {}]) mevs).out = 0 ∧
+    subC 1 8 mevs = 1 ∧ pendC 1 8 (Msg.run (Msg.init 0 [{}, {}]) mevs).q.nodes = 1 := by decide
+
 /-! ### (3') the returned wait against every pending deadline of every session -/
 open Coap.Msg in
 /-- **wait_le_every_deadline** (every state, any number of messages and sessions, no scope restriction): the wait
@@ -657,11 +693,6 @@ theorem wait_le_every_deadline (l : L) : let r := prepareCore l
     (∀ d, Spec.SQ.earliest (abs r.1.q) = some d → r.2 = (d - r.1.now) % 4294967296) ∧
     (r.1.q.nodes = [] → r.2 = 0) :=
   Coap.Sim.prepareCore_wait_all l
-
-/-- witness run: two sessions sharing the send queue (NSTART 1 each), T = 2000 and T = 3000 ticks -/
-def mevs : List Msg.Ev :=
-  [.submit 0 true 1 0, .setNow 500, .submit 1 true 7 255, .setNow 2000, .prepare, .setNow 3500, .prepare,
-   .rxAck 1 7, .setNow 6000, .prepare, .setNow 7000, .submit 1 true 8 128, .rxRst 0 1, .setNow 9500, .prepare]
 
 open Coap.Sim in
 /-- non-vacuity of the hypotheses of `m_refines_timer_partial`, `m_schedule_all_partial`,
